@@ -363,6 +363,10 @@ class World:
             if len(a) != len(orig):
                 return f"length:{len(a)} != {len(orig)}"
             for i, (x, y) in enumerate(zip(a, orig)):
+                if not _is_num(y):
+                    # the candidate is a symbolic wavefunction (its own save was refused): whatever was loaded, it is
+                    # not that one - a difference, not an error of the comparison
+                    return f"amplitude:{i}: loaded {x!r}, candidate entry {y!r} is symbolic"
                 if complex(x) != complex(y):
                     return f"amplitude:{i}: {complex(x)!r} != {complex(y)!r}"
             return None
